@@ -212,7 +212,9 @@ def run_schedule(shape, nthreads, schedule, stall=0, timeout=6.0):
                     gate.cv.wait(0.0005)
         gate.free = True
         gate.cv.notify_all()
-    at.join(max(0.1, t_end - time.time()))
+    # the controlled phase is over (every kernel runs freely now): a correct assembler finishes within milliseconds;
+    # the generous bound only guards against a genuine hang and is independent of machine load during the forced phase
+    at.join(60.0)
     if at.is_alive():
         ev['err'] = 'Timeout'
         with gate.cv:
